@@ -292,15 +292,18 @@ func (e *VerifEtcd) Counts() (int, int, int) {
 	return e.grants, e.puts, e.revokes
 }
 
-// AwaitCounts waits until at least the given numbers of puts and revokes have completed; false: timeout.
+// AwaitCounts waits until at least the given numbers of puts and revokes have completed and every armed fault has
+// happened; false: timeout.  The timeout is counted in polls of 2 ms, not in wall-clock time: while the test process is
+// not scheduled (a loaded machine) no poll happens, whereas the publisher's one-second ticker keeps firing — so a tick
+// that is due is never missed because the machine was busy.
 func (e *VerifEtcd) AwaitCounts(puts, revokes int, max time.Duration) bool {
-	deadline := time.Now().Add(max)
-	for {
+	polls := int(max / (2 * time.Millisecond))
+	for i := 0; ; i++ {
 		_, p, r := e.Counts()
 		if p >= puts && r >= revokes && e.PendingFaults() == 0 {
 			return true
 		}
-		if time.Now().After(deadline) {
+		if i >= polls {
 			return false
 		}
 		time.Sleep(2 * time.Millisecond)
